@@ -337,7 +337,7 @@ func GenCase(p *Profile) *rapid.Generator[Case] {
 				if nc <= 0 {
 					nc = 1
 				}
-				c.Ops = append(c.Ops, Op{K: OpEvict, C: rapid.IntRange(0, nc-1).Draw(t, "evictcoll"), N: rapid.IntRange(2, 12).Draw(t, "evictn")})
+				c.Ops = append(c.Ops, Op{K: OpEvict, C: rapid.IntRange(0, nc-1).Draw(t, "evictcoll"), N: rapid.IntRange(2, 12).Draw(t, "evictn"), Flag: 1})
 			}
 		}
 		return c
